@@ -9,7 +9,7 @@ from typing import Dict, List, Optional, Set
 from .. import tables
 from ..cfg import CFG
 from ..model import AnalysisError, Func, own_nodes, unparse
-from ..util import assignments_to, calls, const_str, names_in
+from ..util import assignments_to, calls, const_str, kwarg, names_in
 from . import c08
 
 EXPLANATION = (
@@ -22,7 +22,7 @@ EXPLANATION = (
     "on every path; (U4) add_entries catches exactly the exception type the rejections raise and collects the offending entry; (U5) "
     "the shipped databases satisfy the uniqueness invariant (no two records share a formula or a SMILES) - exhaustive.  "
     "Correctness of decompose itself is C07."
-    ' U4 also requires the bulk-add loop to iterate the entries parameter itself; (U6) the composition recorded by add_entry is decompose(smiles), whose element keys, atom set and charge follow C07-E1/E2/E3 (shared).'
+    ' U4 also requires the bulk-add loop to iterate the entries parameter itself; (U6) the composition recorded by add_entry is decompose(smiles), whose element keys, atom set and charge follow C07-E1/E2/E3 (shared); (U7) the validity gate parses the SMILES with the same RDKit parser and sanitisation setting as decompose, so nothing decompose cannot build passes the gate.'
 )
 ASSUMPTIONS = ["list.append / list.remove mutate by exactly one element", "decompose is correct (C07)"]
 
@@ -297,6 +297,42 @@ def check(ctx) -> None:
     c07.rule_e1(ctx, "C19-U6")
     c07.rule_e2(ctx, "C19-U6")
     c07.rule_e3(ctx, "C19-U6")
+    # ---------------------------------------------------------------- U7
+    # the validity gate must reject whatever the composition step cannot parse: both parse with the same RDKit parser
+    # and the same sanitisation setting (decompose returns an empty composition for a molecule it cannot build)
+    ctx.rule("C19-U7", "the validity gate parses the SMILES the way decompose does (same parser, same sanitize setting)", 1)
+
+    def parser_calls(f: Func):
+        return [c for c in calls(f) if unparse(c.func).split(".")[-1].startswith("MolFrom")]
+
+    def parse_config(c: ast.Call):
+        san = kwarg(c, "sanitize", 1)
+        return (unparse(c.func).split(".")[-1], "True" if san is None else unparse(san))
+
+    gate_if = rejections.get("valid")
+    if gate_if is not None and dec is not None:
+        gcall = gate_if.test.operand
+        gate = None
+        if isinstance(gcall.func, ast.Attribute) and isinstance(gcall.func.value, ast.Name) and gcall.func.value.id == add.params[0]:
+            gate = prog.lookup_method(cls, gcall.func.attr)
+        else:
+            tgt = ctx.res.resolve_callee(gcall, add)
+            if tgt and tgt[0] == "func":
+                gate = prog.functions.get(tgt[1])
+        ctx.require(gate is not None, "the validity predicate %s of add_entry cannot be resolved" % unparse(gcall.func))
+        gp, dp = parser_calls(gate), parser_calls(dec)
+        ctx.require(dp, "decompose no longer parses its SMILES with an RDKit MolFrom* call")
+        if not gp and any(unparse(c.func).split(".")[-1] == dec.name for c in calls(gate)):
+            ctx.instance("C19-U7", "%s delegates to %s" % (gate.name, dec.name), gate.loc(), ok=True)
+        else:
+            ctx.require(gp, "the validity predicate %s has no RDKit MolFrom* call and does not delegate to decompose" % gate.name)
+            want = {parse_config(c) for c in dp}
+            for c in gp:
+                cfgc = parse_config(c)
+                ok7 = cfgc in want
+                ctx.instance("C19-U7", "%s parses with %s (sanitize=%s); decompose: %s" % (gate.name, cfgc[0], cfgc[1], sorted(want)), gate.loc(c), ok=ok7)
+                if not ok7:
+                    ctx.finding("C19-U7", "RuleImputeManager.%s:parser-weaker-than-decompose" % gate.name, gate.loc(c), "the validity gate parses with %s(sanitize=%s) while decompose parses with %s: a SMILES that passes the gate but that decompose cannot build is stored with an empty composition instead of being rejected" % (cfgc[0], cfgc[1], ", ".join("%s(sanitize=%s)" % w for w in sorted(want))))
     # ---------------------------------------------------------------- U5
     for name, rel, db in c08.databases(ctx):
         seen_f: Dict[str, int] = {}
